@@ -31,8 +31,11 @@ DOCS = [
     {"users": [{"name": "n1", "tags": ["x", "y"], "n": 0}, {"name": "n2", "tags": [], "n": None}, {"name": "n3"}]},
     {"1": {"2": [0, 1, 2, 3]}, "0": "zero"},
     [[1, 2, 3], [4, 5], []],
+    # string values that happen to hold JSON text (they are strings, not containers)
+    {"events": [{"payload": "{\"a\": 1, \"name\": \"bob\", \"tags\": [\"x\", \"y\"]}"}, {"payload": "[10, 20, 30]"}, {"payload": "{oops"}, {"payload": {"a": 2, "name": "n"}}],
+     "a": "{\"a\": [1, 2]}", "b": "[1, 2, 3]"},
 ]
-MATCH_Q = ["$", "$.a", "$.b", "$[0]", "$[*]", "$.users[*]", "$.users", "$..b", "$.e", "$.d", "$[4]", "$['1']", "$[2]", "$..tags", "$.nosuch"]
+MATCH_Q = ["$.events[*].payload", "$.events[*]", "$..payload", "$", "$.a", "$.b", "$[0]", "$[*]", "$.users[*]", "$.users", "$..b", "$.e", "$.d", "$[4]", "$['1']", "$[2]", "$..tags", "$.nosuch"]
 REL_Q = ["$.a", "$.b", "$.x", "$.name", "$.tags", "$.tags[0]", "$.tags[1]", "$[0]", "$[1]", "$[2]", "$[0:2]", "$[1:]", "$[*]", "$.*", "$.b[0]", "$.b[1:]", "$.b[*]",
          "$.c", "$.c[1]", "$.c[0, 2]", "$[0].a", "$[1].b[0]", "$[*].a", "$.users[*].name", "$.users[0,2].name", "$.users[1:].tags[0]", "$['2'][1:3]", "$['2'][0]",
          "$.e", "$.f", "$.g", "$.h", "$.i", "$..name", "$[*].b[0]", "$.nosuch", "$.d", "$['1']", "$.n"]
